@@ -93,8 +93,24 @@ func closureCheck(f *File, out string) *Violation {
 		}
 	}
 	// (iv) no run-off: an instruction that can fall through must be followed by
-	// code of the same script.
+	// code of the same script; so must the entry label of a script (an empty script still returns).
+	entry := map[string]bool{}
+	for _, n := range m.entries {
+		entry[n] = true
+	}
 	for i, l := range a.Lines {
+		if l.Label != "" && entry[l.Label] {
+			j := i + 1
+			for j < len(a.Lines) && (a.Lines[j].IsMark || (a.Lines[j].Label != "" && !m.topLevel[a.Lines[j].Label] && !isHoistedLabel(a.Lines[j].Label))) {
+				j++
+			}
+			if j >= len(a.Lines) {
+				return viol("run-off", "nothing follows the entry label %s: execution runs past the end of the output", l.Label)
+			}
+			if nx := a.Lines[j]; nx.Other || nx.Label != "" || strings.HasPrefix(nx.Op, ".") || nx.Op == "map_script" || nx.Op == "map_script_2" {
+				return viol("run-off", "no instruction follows the entry label %s: execution runs into '%s'", l.Label, strings.TrimSpace(nx.Raw))
+			}
+		}
 		if l.Op == "" || strings.HasPrefix(l.Op, ".") || l.Op == "map_script" || l.Op == "map_script_2" {
 			continue
 		}
